@@ -346,15 +346,18 @@ def shallow_slack_area(pieces):
 
 def _bounds_arc_tol(D):
     """
-    Arc bounds come from the polygonised arc (documented approximate): 1e-3 of the radius for ordinary
-    arcs, never more than the sagitta of the arc itself.
+    Arc bounds come from the polygonised arc (documented approximate): 1.5e-3 of the radius for ordinary
+    arcs, never more than the sagitta of the arc itself.  (The angular criterion asks for ceil(span / 0.08)
+    POINTS, at least 4: a span just below 0.32 rad gets 3 chords of 0.107 rad, sagitta 1.42e-3 R - the
+    1e-3 R used before was a false alarm of the thorough tier once a drawing was scaled to 1e-6, where the
+    length criterion no longer adds points.)
     """
     tol = 0.0
     for r in D.rings:
         for e in r.edges:
             if e[0] == "A":
                 span = min(e[4] - e[3], math.pi)
-                tol = max(tol, min(1e-3 * e[2], 1.05 * e[2] * (1.0 - math.cos(span / 2.0))))
+                tol = max(tol, min(1.5e-3 * e[2], 1.05 * e[2] * (1.0 - math.cos(span / 2.0))))
     return tol
 
 
